@@ -83,6 +83,10 @@ def _pat_match(pat, host, addr, port):
         return any(v and hmac.new(s, v.encode(), hashlib.sha1).digest() == d
                    for v in (h, a))
     if '/' in pat:
+        if port:
+            # address ranges carry no port: they speak for the default port
+            # only (and for the port-less fallback lookup)
+            return False
         try:
             return bool(addr) and \
                 ipaddress.ip_address(addr) in ipaddress.ip_network(pat)
@@ -203,7 +207,7 @@ def _patterns_for(rng, host, addr, port, hit):
             return [wrap('?' + host[1:])] if not ported else \
                 [f'[?{host[1:]}]:{port}']
         if k == 'cidr':
-            if ported:
+            if ported and len(host) % 2:
                 return [wrap(host)]
             if ':' in addr:
                 return ['2001:db8::/32']
